@@ -9,19 +9,26 @@
      TempRename     open(tmp,O_EXCL); write; fsync; close; rename      satisfies InvKill and InvPower
      TempNoSync     open(tmp,O_EXCL); write; close; rename             satisfies InvKill, violates InvPower
      UnlinkFirst    write tmp; fsync; unlink f; rename                violates InvKill (f missing)
-     RenameOpen     open(tmp); rename; write; close                   violates InvKill            *)
+     RenameOpen     open(tmp); rename; write; close                   violates InvKill
+   and on a target with a second hard link "g" / in a read-only directory:
+     HardInPlace    open(f,O_TRUNC); write; close                     violates InvKill for f AND g (shared inode)
+     HardTempRename TempRename on f                                   satisfies both (g keeps the original)
+     RoDirTemp      open(d/tmp,O_EXCL) fails (predicted); exit        satisfies both                *)
 EXTENDS Naturals, Sequences
 
 Orig == <<1, 2, 3>>
 New == <<7, 8>>
-Reset == [op |-> "reset", run |-> 1, files |-> <<[name |-> "f", orig |-> Orig, fmt |-> New, target |-> TRUE]>>]
+File(n, ino) == [name |-> n, orig |-> Orig, fmt |-> New, target |-> TRUE, ino |-> ino, link |-> "", ro |-> FALSE]
+Reset == [op |-> "reset", run |-> 1, files |-> <<File("f", 1)>>, rodirs |-> <<>>]
+ResetHard == [op |-> "reset", run |-> 1, files |-> <<File("f", 1), File("g", 1)>>, rodirs |-> <<>>]
+ResetRoDir == [op |-> "reset", run |-> 1, files |-> <<File("d/f", 1)>>, rodirs |-> <<"d">>]
 Open(n, fd, creat, trunc, excl) == [op |-> "open", name |-> n, fd |-> fd, creat |-> creat, trunc |-> trunc,
-                                    excl |-> excl, wr |-> TRUE, append |-> FALSE, ok |-> TRUE]
+                                    excl |-> excl, wr |-> TRUE, append |-> FALSE, ok |-> TRUE, dir |-> ""]
 Write(fd) == [op |-> "write", fd |-> fd, data |-> New, ret |-> Len(New)]
 Close(fd) == [op |-> "close", fd |-> fd]
 Fsync(fd) == [op |-> "fsync", fd |-> fd]
-Rename(a, b) == [op |-> "rename", from |-> a, to |-> b, ok |-> TRUE]
-Unlink(a) == [op |-> "unlink", name |-> a, ok |-> TRUE]
+Rename(a, b) == [op |-> "rename", from |-> a, to |-> b, ok |-> TRUE, fromdir |-> "", todir |-> ""]
+Unlink(a) == [op |-> "unlink", name |-> a, ok |-> TRUE, dir |-> ""]
 Exit == [op |-> "exit"]
 
 InPlace     == <<Reset, Open("f", 3, TRUE, TRUE, FALSE), Write(3), Close(3), Exit>>
@@ -31,8 +38,12 @@ UnlinkFirst == <<Reset, Open("t", 3, TRUE, FALSE, TRUE), Write(3), Fsync(3), Clo
                  Rename("t", "f"), Exit>>
 RenameOpen  == <<Reset, Open("t", 3, TRUE, FALSE, TRUE), Rename("t", "f"), Write(3), Fsync(3), Close(3), Exit>>
 
-\* all five in one script (run ids 1..5), verdicts read from the RUN / CASE lines by the driver
+HardInPlace == <<ResetHard, Open("f", 3, TRUE, TRUE, FALSE), Write(3), Close(3), Exit>>
+HardTempRename == <<ResetHard, Open("t", 3, TRUE, FALSE, TRUE), Write(3), Fsync(3), Close(3), Rename("t", "f"), Exit>>
+RoDirTemp == <<ResetRoDir, [Open("d/t", 0, TRUE, FALSE, TRUE) EXCEPT !.ok = FALSE, !.dir = "d"], Exit>>
+
+\* all of them in one script (run ids 1..5), verdicts read from the RUN / CASE lines by the driver
 WithRun(sc, r) == [i \in DOMAIN sc |-> IF i = 1 THEN [sc[i] EXCEPT !.run = r] ELSE sc[i]]
 All == WithRun(InPlace, 1) \o WithRun(TempRename, 2) \o WithRun(TempNoSync, 3) \o WithRun(UnlinkFirst, 4)
-       \o WithRun(RenameOpen, 5)
+       \o WithRun(RenameOpen, 5) \o WithRun(HardInPlace, 6) \o WithRun(HardTempRename, 7) \o WithRun(RoDirTemp, 8)
 =============================================================================
